@@ -297,7 +297,7 @@ def run_case(c):
     A = Anum / den; n = len(A); kind = c['kind']
     und = kind == 'und'
     conn = is_connected(A) if und else (kind == 'dir')
-    out = {'fails': [], 'lines': [], 'timeouts': 0, 'ops': []}
+    out = {'fails': [], 'lines': [], 'timeouts': 0, 'ops': [], 'contract': []}
     F = out['fails']
     mstr = mat_str(Anum)
     dstr = '' if den == 1 else ' den=%d' % den
@@ -307,11 +307,14 @@ def run_case(c):
 
     def guarded(func, f, *a):
         st, v = call(f, *a, t=10.0)
-        if st == 'timeout':
-            out['timeouts'] += 1; return None
+        if st == 'timeout':      # none of these routines loops: not returning within 10 s on a <= 10-node graph is a failure
+            out['timeouts'] += 1; fail(func, 'returns-within-budget', {'budget_s': 10.0}); return None
         if st == 'exc':
             fail(func, 'raises', {'exception': v}); return None
         return v
+
+    def frs(xs):
+        return ','.join(fr(x) for x in np.asarray(xs, dtype=float).ravel())
 
     # ---- random-walk measures (connected / strongly connected)
     if conn and n >= 2:
@@ -390,6 +393,15 @@ def run_case(c):
                 fail('subgraph_centrality', 'expm-diagonal', {'Cs': np.asarray(Cs).tolist(), 'expm_diag': ref.tolist()})
             if den == 1:
               out['lines'].append(('expdiag', 'expdiag n=%d A=%s terms=%d' % (n, mstr, n_terms(A)), {'S': np.asarray(Cs, dtype=float).tolist()}))
+            # post-processing as coded, on the same eigh output (LAPACK is deterministic): dot(vecs*vecs, exp(vals)); oracle contract checked
+            if np.allclose(A, A.T) and Cs.shape == (n,):
+                w_, V_ = sla.eigh(A)
+                okc = (np.abs(A @ V_ - V_ * w_[None, :]).max() <= 1e-8 * max(1.0, np.abs(w_).max())
+                       and np.abs(V_ @ V_.T - np.eye(n)).max() <= 1e-10)
+                out['contract'].append(('eigh', bool(okc)))
+                ev = np.exp(w_)
+                out['lines'].append(('subpost', 'subpost n=%d A=%s vecs=%s ev=%s' % (n, mstr, frs(V_), frs(ev)),
+                                     {'S': np.real(Cs).astype(float).tolist()}))
         v = guarded('eigenvector_centrality_und', bct.eigenvector_centrality_und, A.copy())
         if v is not None:
             v = np.asarray(v)
@@ -407,6 +419,18 @@ def run_case(c):
                 if res > TOL * max(1.0, abs(lam)):
                     fail('eigenvector_centrality_und', 'eig-residual-lambda-max', {'v': v.tolist(), 'lambda_max': lam, 'residual': res})
                 Av = A @ v
+                # post-processing as coded on the same eig output: i = argmax(vals); abs(vecs[:, i]); oracle contract checked
+                w_, V_ = sla.eig(A)
+                if np.abs(np.imag(w_)).max() == 0 and not np.iscomplexobj(V_):
+                    wr = np.real(w_)
+                    okc = (np.abs(A @ V_ - V_ * wr[None, :]).max() <= 1e-8 * max(1.0, np.abs(wr).max())
+                           and np.abs((V_ * V_).sum(0) - 1).max() <= 1e-10
+                           and np.abs(np.sort(wr) - np.linalg.eigvalsh(A)).max() <= 1e-8 * max(1.0, np.abs(wr).max()))
+                    out['contract'].append(('eig', bool(okc)))
+                    out['lines'].append(('eigpost', 'eigpost n=%d A=%s vals=%s vecs=%s' % (n, mstr, frs(wr), frs(V_)),
+                                         {'i': int(np.argmax(w_)), 'v': v.tolist()}))
+                else:
+                    out['contract'].append(('eig-complex-dtype', True))
                 exp = {'nrm2': float(v @ v), 'vmin': float(v.min()), 'ray': float(v @ Av / (v @ v)) if v @ v > 0 else None,
                        'lam': lam, 'conn': bool(conn)}
                 if den == 1:
@@ -464,6 +488,12 @@ def compare(op, res, exp):
             py = np.array(exp['S'])
             ok = b <= 1e-9 and py.shape == S.shape and bool(np.all(np.abs(py - S) <= b + TOL * np.maximum(1, np.abs(S))))
             return None if ok else 'series (bound %.3g) differs' % b
+        if op == 'eigpost':
+            vm = fvals(d['v'])
+            ok = int(d['i']) == exp['i'] and vm == [float(x) for x in exp['v']]
+            return None if ok else 'argmax / abs(column) differ from the returned vector (model i=%s, numpy argmax=%d)' % (d['i'], exp['i'])
+        if op == 'subpost':
+            return None if close(exp['S'], fvals(d['S']), 1e-12) else 'dot(vecs*vecs, exp(vals)) differs'
         if op == 'eigcert':
             nrm2 = float(Fraction(d['nrm2'])); vmin = float(Fraction(d['vmin'])); ray = float(Fraction(d['ray'])); res2 = float(Fraction(d['res2']))
             if abs(nrm2 - exp['nrm2']) > 1e-12 or abs(vmin - exp['vmin']) > 1e-15 or abs(ray - exp['ray']) > 1e-9:
@@ -489,9 +519,10 @@ def malformed_stream(bct):
     st, v = call(bct.findwalks, np.zeros((1, 1)), t=5)
     items.append(('findwalks n=1 A=0', 'error=IndexError' if st == 'exc' and v.startswith('IndexError') else 'py:%s %s' % (st, v)))
     for bad in ['mfpt n=3 A=0,1,1', 'pagerank n=2 A=0,1,1,0', 'pagerank n=2 A=0,1,1,0 d=1/0', 'nosuchop n=2 A=0,1,1,0', 'expdiag n=2 A=0,1,1,0',
-                'eigcert n=2 A=0,1,1,0 v=1/2', 'findwalks n=x A=0', '']:
+                'eigcert n=2 A=0,1,1,0 v=1/2', 'findwalks n=x A=0', 'eigpost n=2 A=0,0,0,0 vals=1 vecs=1,0,0,1', 'subpost n=2 A=0,0,0,0 vecs=1,0,0 ev=1,1', '']:
         items.append((bad, 'error=protocol'))
     items.append(('expdiag n=2 A=0,9,9,0 terms=3', 'error=terms'))
+    items.append(('eigpost n=0 A=- vals=- vecs=-', 'error=protocol'))
     return items
 
 
@@ -521,11 +552,19 @@ def main():
             ck.count('op:' + o)
         ck.case(sample={'family': c['fam'], 'A': c['A'], 'den': c.get('den', 1), 'd': c['d'], 'falff': c['falff'], 'routines': sorted(set(r['ops']))} if nontriv and c['fam'] in ('cycle', 'strong-dir', 'disjoint', 'frac-dir', 'frac-pendant') else None,
                 nontrivial_key=digest([c['A'], c.get('den', 1), c['d'], c['falff']]) if nontriv else None)
+        for kind, okc in r['contract']:
+            ck.count('oracle_contract:%s:%s' % (kind, 'ok' if okc else 'FAILED'))
+            if not okc:
+                ck.corr_break('LAPACK output does not meet the oracle contract assumed by eigenvector_spec / subgraph_spec (%s)' % kind, {'case': c})
         for func, pred, info in r['fails']:
             cond = {'family': c['fam'], 'den': c.get('den', 1)}
             ck.violation(func, pred, {'case': c, 'info': info}, cond)
         for op, line, exp in r['lines']:
             lines.append(line); meta.append((c, op, exp))
+    if not ck.replay:
+        for o in ('mfpt', 'diffeff', 'pagerank', 'subgraph', 'eigvec', 'findwalks'):
+            if not ck.dist.get('op:' + o):
+                ck.corr_break('routine never returned normally in this run', {'op': o})
     if ok:
         try:
             bct = import_bct()
